@@ -234,6 +234,10 @@ func Spec() *core.Spec {
 					CheckTree(c, wire.Node{Tag: 0x42004A, Type: wire.LongInteger, Int: v}, 0)
 					CheckTree(c, wire.Node{Tag: 0x420092, Type: wire.DateTime, Int: v}, 0)
 				}
+				for _, v := range []int64{-62135596800, -62135596801, -62135596799, -1, 253402300799, 253402300800} {
+					// around the zero time.Time (0001-01-01T00:00:00Z), the epoch and year 9999
+					CheckTree(c, wire.Node{Tag: 0x420092, Type: wire.DateTime, Int: v}, 0)
+				}
 				for _, v := range []int64{0, 1, 255, 256, 0x7FFFFFFF, 0x80000000, 0xFFFFFFFF} {
 					CheckTree(c, wire.Node{Tag: 0x42005C, Type: wire.Enumeration, Int: v}, 0)
 					CheckTree(c, wire.Node{Tag: 0x420049, Type: wire.Interval, Int: v}, 0)
